@@ -115,18 +115,17 @@ class GenericContextProvider(RoleProvider):
                     # use "regular" way to update via transaction manager
                     self._logger.info('update %s, handle=%s', proposed_st.NODETYPE.localname, proposed_st.Handle)
                     # handle changed ContextAssociation
+                    unbind = bind = False
                     if (
                         old_state_container.ContextAssociation == pm_types.ContextAssociation.ASSOCIATED
                         and proposed_st.ContextAssociation != pm_types.ContextAssociation.ASSOCIATED
                     ):
-                        proposed_st.UnbindingMdibVersion = mgr.new_mdib_version
-                        proposed_st.BindingEndTime = time.time()
+                        unbind = True
                     elif (
                         old_state_container.ContextAssociation != pm_types.ContextAssociation.ASSOCIATED
                         and proposed_st.ContextAssociation == pm_types.ContextAssociation.ASSOCIATED
                     ):
-                        proposed_st.BindingMdibVersion = mgr.new_mdib_version
-                        proposed_st.BindingStartTime = time.time()
+                        bind = True
                         handles = self._mdib.xtra.disassociate_all(
                             entity,
                             unbinding_mdib_version=mgr.new_mdib_version,
@@ -144,6 +143,16 @@ class GenericContextProvider(RoleProvider):
                             'StateVersion',
                         ],
                     )
+                    # binding info is not taken from the proposal (see skipped_properties), set it in the state itself
+                    if unbind:
+                        old_state_container.UnbindingMdibVersion = mgr.new_mdib_version
+                        old_state_container.BindingEndTime = time.time()
+                    elif bind:
+                        old_state_container.BindingMdibVersion = mgr.new_mdib_version
+                        old_state_container.BindingStartTime = time.time()
+                        # a new binding period starts, the end of the previous one no longer applies
+                        old_state_container.UnbindingMdibVersion = None
+                        old_state_container.BindingEndTime = None
                 modified_state_handles[entity.handle].append(proposed_st.Handle)
                 operation_target_handles.append(proposed_st.Handle)
 
